@@ -169,13 +169,37 @@ def w_vstars(arg):
         direct = np.array([[sum(fa[i] @ fb[j] * M[i, j] for i in fa for j in fb) for fb in fields] for fa in fields]) if fields else np.zeros((0, 0))
         acc.check(np.allclose(np.dot(GFexp, gam), direct, atol=1e-9), 'GF-expansion-equals-projected-direct-assembly',
                   '%s: max deviation %.2e' % (tag, np.abs(np.dot(GFexp, gam) - direct).max() if fields else 0), sig=(tag, 'gfexp'))
-    acc.sample = {'crystal': cid, 'checked': 'Gram matrix, character-formula count, equivariance, outer, GF expansion vs direct assembly'}
+        # bias and bare-diffusivity expansions == projection of the directly assembled fields (full sums over every jump)
+        PSz = stars.PairState.zero
+        for which, om2 in (('omega1', False), ('omega2', True)):
+            jnw, jt, sp = getattr(ss, 'jumpnetwork_' + which)()
+            if not jnw: continue
+            b0, b1 = vs.biasexpansions(jnw, jt, omega2=om2)
+            D0e, D1e = vs.bareexpansions(jnw, jt)
+            nj0 = len(ss.jumpnetwork_index)
+            B1 = np.zeros((vs.Nvstars, len(jnw))); B0 = np.zeros((vs.Nvstars, nj0)); D1 = np.zeros((c.dim, c.dim, len(jnw))); D0 = np.zeros((c.dim, c.dim, nj0))
+            for k_, (jl, jt_) in enumerate(zip(jnw, jt)):
+                for (IS, FS), dx in jl:
+                    D1[:, :, k_] += 0.5 * np.outer(dx, dx); D0[:, :, jt_] += 0.5 * np.outer(dx, dx)
+                    osi = ss.stateindex(PSz(ss.states[IS].i, c.dim)) if om2 else None
+                    for a, fa in enumerate(fields):
+                        if IS in fa:
+                            B1[a, k_] += fa[IS] @ dx; B0[a, jt_] += fa[IS] @ dx
+                        if osi is not None and osi in fa:      # origin states carry minus the summed bias of the exchange jumps
+                            B1[a, k_] -= fa[osi] @ dx; B0[a, jt_] -= fa[osi] @ dx
+            acc.check(np.allclose(b1, B1, atol=1e-9) and np.allclose(b0, B0, atol=1e-9), 'bias-expansion-equals-projected-direct-assembly(%s)' % which,
+                      '%s: max deviation %.2e / %.2e' % (tag, np.abs(b1 - B1).max(), np.abs(b0 - B0).max()), sig=(tag, which, 'bias'))
+            acc.check(np.allclose(D1e, D1, atol=1e-9) and np.allclose(D0e, D0, atol=1e-9), 'bare-diffusivity-expansion-equals-direct-sum(%s)' % which, tag, sig=(tag, which, 'bare'))
+    acc.sample = {'crystal': cid, 'checked': 'Gram matrix, character-formula count, equivariance, outer, GF / bias / bare expansions vs direct assembly'}
     return acc.result()
 
 
 # ----------------------------------------------------------------------------------------- C26
 def omega_contract(acc, ss, c, chem, tag):
     key = lambda dx: tuple(np.round(dx, 6) + 0.)
+    # vacancy position of a pair state from the crystal geometry (independent of the stored dx)
+    vpos = lambda ps: c.lattice @ (np.array(ps.R) + c.basis[chem][ps.j])
+    spos = lambda ps: c.lattice @ (c.basis[chem][ps.i])
     for which in ('omega1', 'omega2'):
         jnw, jt, sp = getattr(ss, 'jumpnetwork_' + which)()
         spec = {}
@@ -188,11 +212,11 @@ def omega_contract(acc, ss, c, chem, tag):
                         if PSf.iszero(): continue
                         fidx = ss.stateindex(PSf)
                         if fidx is None: continue
-                        spec[(i, fidx)] = (PSf.dx - PSi.dx, jtype)
+                        spec[(i, fidx)] = (vpos(PSf) - vpos(PSi), jtype)
                     else:
                         if not PSf.iszero(): continue
                         fidx = ss.stateindex(-PSi)
-                        spec[(i, fidx)] = (-PSi.dx, jtype)
+                        spec[(i, fidx)] = (spos(PSi) - vpos(PSi), jtype)      # the vacancy jumps onto the solute site
         flat = [((i, f_), dx, n) for n, jl in enumerate(jnw) for (i, f_), dx in jl]
         pairs = [p for p, dx, n in flat]
         acc.check(len(pairs) == len(set(pairs)), which + ':each-transition-in-exactly-one-class', '%s: %d listed, %d distinct' % (tag, len(pairs), len(set(pairs))), sig=(tag, which, 'once'))
@@ -226,10 +250,13 @@ def w_omega(arg):
         for origin in (False, True):
             ss = stars.StarSet(jn, c, chem, N, originstates=origin)
             omega_contract(acc, ss, c, chem, 'N=%d origin=%s' % (N, origin))
+    # the same networks from the lattice form of the jump network
+    ssl = stars.StarSet(c.jumpnetwork2lattice(chem, jn), c, chem, 1, lattice=True)
+    omega_contract(acc, ssl, c, chem, 'N=1 lattice-form')
     # pruning in VacancyMediated.generate: omega1 classes with both ends outside the thermodynamic range are removed, nothing else
     if njumps <= 14:
         try:
-            for Nth in ((1,) if tier == 'quick' else (1, 2)):
+            for Nth in ((1, 2) if (tier == 'thorough' or njumps <= 8) else (1,)):
                 d = OnsagerCalc.VacancyMediated(c, chem, c.sitelist(chem), jn, Nth)
                 full, jt, sp = d.kinetic.jumpnetwork_omega1()
                 therm = set(d.thermo.states)
@@ -240,6 +267,20 @@ def w_omega(arg):
                 acc.check(got == want, 'pruned-omega1-network-is-exactly-the-classes-touching-the-thermodynamic-range',
                           'Nthermo=%d: kept %d, expected %d' % (Nth, len(got), len(want)), sig=('prune', Nth))
                 acc.check(len(d.om1_jt) == len(d.om1_jn) == len(d.om1_SP), 'pruned-lists-stay-aligned', '', sig=('align', Nth))
+                # every vacancy jump that starts or ends in the thermodynamic range is classified (brute force over states)
+                listed = {p for jl in d.om1_jn for p, dx in jl}
+                want_pairs = set()
+                for i, PSi in enumerate(d.kinetic.states):
+                    if PSi.iszero(): continue
+                    for jump in d.kinetic.jumplist:
+                        if PSi.j != jump.i: continue
+                        PSf = PSi + jump
+                        if PSf.iszero(): continue
+                        fi = d.kinetic.stateindex(PSf)
+                        if fi is None: continue
+                        if PSi in therm or PSf in therm: want_pairs.add((i, fi))
+                acc.check(want_pairs <= listed, 'every-swing-jump-touching-the-thermodynamic-range-is-classified',
+                          'Nthermo=%d: %d of %d missing' % (Nth, len(want_pairs - listed), len(want_pairs)), sig=('touch', Nth))
         except Exception as ex:
             acc.check(False, 'no-unspecified-exception', 'VacancyMediated: %s: %s' % (type(ex).__name__, str(ex)[:200]))
     acc.sample = {'crystal': cid, 'checked': 'omega1/omega2 classes vs brute force, closure, displacement, pruning'}
@@ -253,7 +294,7 @@ def annotate_C24(rep):
 
 def annotate_C25(rep):
     rep.trust('character formula for invariant-subspace dimensions (theory taken as definition)')
-    rep.gaps.append('rateexpansions / biasexpansions / bareexpansions are not compared with a direct assembly here (they are exercised end-to-end by the tracer identities of C06); catalogue crystals, N <= 2')
+    rep.gaps.append('rateexpansions is not compared with a direct assembly (exercised end-to-end by the tracer identities of C06); catalogue crystals, N <= 2')
 
 
 def annotate_C26(rep):
